@@ -153,6 +153,18 @@ def install(E, inline_types=(), target=None, adversarial=False):
         return NotImplemented
     E.extra_intrinsics[r"cbor_event::se::Serializer::<.*>::serialize::<&?(u8|u16|u32|u64)>$"] = generic_serialize
 
+    def generic_serialize_crate_type(E_, c, args):
+        # Serializer::serialize::<T>(&mut self, &T) is `T::serialize(value, self)`: dispatch to the crate type's own impl
+        m_ = re.search(r"::serialize::<&?([\w:]+)>$", c)
+        s_ = deref(E_, args[0])
+        if not m_ or not isinstance(s_, VSer) or len(args) < 2:
+            return NotImplemented
+        ty_ = last_seg(m_.group(1))
+        if ty_ in _eng.INT_TYPES:
+            return NotImplemented
+        return E_.call("<%s as cbor_event::se::Serialize>::serialize" % ty_, [args[1], args[0]])
+    E.extra_intrinsics[r"cbor_event::se::Serializer::<.*>::serialize::<&?[\w:]+>$"] = generic_serialize_crate_type
+
     def cursor_new(E_, c, args):
         return VStruct("Cursor", [args[0]])
     E.extra_intrinsics[r"^std::io::Cursor::<std::vec::Vec<u8>>::new$"] = cursor_new
